@@ -21,7 +21,7 @@ def result_of(case: dict) -> dict:
 def consts(ctx) -> dict[str, str]:
     if ctx.quick:
         return {"MaxN": "4", "FullN": "3", "MaxIn": "2", "Split3N": "3", "ExpN": "3"}
-    return {"MaxN": "5", "FullN": "3", "MaxIn": "2", "Split3N": "3", "ExpN": "3"}
+    return {"MaxN": "5", "FullN": "3", "MaxIn": "2", "Split3N": "3", "ExpN": "4"}
 
 
 def run(ctx):
@@ -39,7 +39,7 @@ def run(ctx):
         "evaluations": len(cases), "distinct_nontrivial": nontrivial, "exhaustive": True, "per_transformation": dict(per_op),
         "rule": "spec/GraphSem.tla!Generate: every DAG with <= MaxN nodes (<= MaxIn inputs per node, edges i<j; up to FullN "
                 "nodes: one two-output node and multi-edges), terminal nodes with and without outputs, names from a pool "
-                "sharing characters/prefixes (and all-equal names for dedup), crossed with copy / rename{prefix,const} / "
+                "sharing characters/prefixes (and all-equal names for dedup; second outputs called 'b', 'payload', 'name'), crossed with copy / rename{prefix,const} / "
                 "fuse{new,inplace,linear,never callbacks} / dedup{payloads from {1,2}} / split{all key maps} / "
                 f"expand{{outer x sub-graph x input map x output map x names}}; constants {cs}; non-trivial = the graph has "
                 "an edge; TLC evaluates GraphSem!Post on every (case, dump of the real result objects)",
